@@ -543,6 +543,13 @@ struct InflateSession {
                 h.sigmix(((uint64_t) bs_before << 40) ^ ((uint64_t) bs << 32) ^ (size_class(consumed) << 16) ^ (size_class(produced) << 8) ^ (uint64_t) (ret & 0xff));
                 if (out < 8 || feed == 0 || ret != 0)
                         h.unusual++;
+                {
+                        static uint64_t *tr[ISAL_CHECKSUM_CHECK + 1][ISAL_CHECKSUM_CHECK + 1];
+                        uint64_t *&c = tr[bs_before][bs];
+                        if (!c)
+                                c = &g_cnt.m[strf("transition.inflate.%d>%d", bs_before, bs)];
+                        ++*c;
+                }
                 // reach probes
                 if (bs == ISAL_BLOCK_HDR)
                         COUNT("probe.block_hdr_carry");
